@@ -44,3 +44,33 @@ Print Assumptions C08_union_exact.
 Print Assumptions C08_intersection_exact.
 Print Assumptions C08_conditions_sound.
 Print Assumptions C08_sound_end_to_end_partial.
+
+(* ------------------------------------------------------------------------------------------------------------
+   Extension (second round): exactness w.r.t. the LITERAL reading (Lemmas/ExactInstances.v).  `Lit lit f b` = some literal
+   accepting path through block b admits the value: comparisons of the governed field against constants read exactly
+   (`lit`), every other condition free; no domain, solver or fuel appears in it (Spec/Literal.v; the backward pass ignoring
+   edge constraints, known finding D12, is reflected there). *)
+From Coq Require Import List String NArith ZArith Bool Arith.
+From Tealer Require Import Tables Leaves LeafPrelude Syntax Parse Cfg StackAst Keys Analysis Domains Detect Literal GraphWf ExecLemmas LeafLemmas ExactLemmas ExactInstances.
+
+(* the CONVERSE clause: if some (non-marker) address is excluded on every literal accepting path through the block -- the field is compared against ZeroAddress / a literal on each of them -- the block is not reported as "any address" *)
+Theorem C08_constrained_field_is_not_any :
+  forall (f : func) (fam : keyfam) (fld : string) (bc : list (nat * sset)) (fuel : nat) (lo : list (nat * sset)) (b : nat) (v : sset),
+       init_constraints sset addr_universal_set addr_null_set addr_union addr_intersection (addr_single (fn_intcs f) fam fld) f = Some bc ->
+       solve sset sset_seteqb addr_universal_set addr_null_set addr_union addr_intersection (addr_single (fn_intcs f) fam fld) f fuel bc = Done lo ->
+       lookup sset lo b = Some v ->
+       (exists n : string, is_marker n = false /\ ~ Lit (addr_lit (fn_intcs f) fam fld n) f b) -> smem ANY_ADDRESS v = false.
+Proof. exact @C08_constrained_not_any. Qed.
+
+(* exact: an address is admitted at a block iff some literal accepting path through the block admits it *)
+Theorem C08_exact :
+  forall (f : func) (fam : keyfam) (fld : string) (bc : list (nat * sset)) (fuel : nat) (lo : list (nat * sset)) (n : string),
+       graph_wf f = true ->
+       is_marker n = false ->
+       init_constraints sset addr_universal_set addr_null_set addr_union addr_intersection (addr_single (fn_intcs f) fam fld) f = Some bc ->
+       solve sset sset_seteqb addr_universal_set addr_null_set addr_union addr_intersection (addr_single (fn_intcs f) fam fld) f fuel bc = Done lo ->
+       forall b : nat, (exists v : sset, lookup sset lo b = Some v /\ addr_gamma v n) <-> Lit (addr_lit (fn_intcs f) fam fld n) f b.
+Proof. exact @C08_result_exact. Qed.
+
+Print Assumptions C08_constrained_field_is_not_any.
+Print Assumptions C08_exact.
